@@ -32,7 +32,7 @@ def _more(check, na):
 
 def _more2(check, na):
     check("C14", "other",
-          "Where the answer comes from, decided on the type-resolved call graph: every comparison/hash/format method on a handle or public header-slice type reaches the same trait method on the payload, never on the pointer, never on a part of the value, never another method, and on every returning path (no early return that skips the delegate); the single pointer-identity shortcut has the licensed shape; Borrow/AsRef return the Deref target; eq, ordering and hash of each payload struct read the same leaf fields at the same instantiation. Two genuine defects found by these rules were repaired in /repo (fix: commits, see known_findings.json). Concrete results on values are not decided.",
+          "Where the answer comes from, decided on the type-resolved call graph: every comparison/hash/format method on a handle or public header-slice type reaches the same trait method on the payload, never on the pointer, never on a part of the value, never another method, and on every returning path (no early return that skips the delegate); the single pointer-identity shortcut has the licensed shape; Borrow/AsRef return the Deref target; eq, ordering and hash of each payload struct read the same leaf fields at the same instantiation. Two genuine defects found by these rules were repaired in /repo (fix: commits, see known_findings.json). Concrete results on values are not decided. Key comparisons are oriented (self, other) (R-ORIENT).",
           TB + " Parametricity of one-call delegation.", "call-graph delegation analysis + comparison-footprint agreement", "DESIGN.md 4/C14, 6")
 
 
@@ -44,7 +44,7 @@ def _more3(check, na):
           "rustc is the oracle: impl-table exactness of the twelve manual Send/Sync impls (for all payload types at once) and a witness corpus compiled against an rlib of the current tree in each configuration - generic positives, generic negatives with exactly one bound missing (E0277 on the marked line), witness payloads of each auto-trait class, every borrow-escape and aliasing route, drop-check per handle kind - each negative witness with exact (line, code) expectations and a compiling twin; plus two signature rules over the type-checked crate: no safe function's output carries a lifetime that none of its inputs carries or outlives (R-LIFETIME), and owning handles own their #[may_dangle] parameters through a marker in an owning position (R-PHANTOM). obligations = expected rejections + twins + accepts + impl facts, all discharged by rustc.",
           "Trusted base: rustc nightly's type, borrow and drop checkers; witnesses cover the routes listed in the property (a route nobody wrote down is covered only by R-LIFETIME/R-AUTO/R-PHANTOM).", "compile-pass / compile-fail witnesses with twins + impl-predicate exactness + signature-region lint over the type-checked crate", "DESIGN.md 4/C13, 2/E-B")
     check("C17", "other",
-          "Linear-use shape of the four serde methods from MIR def-use: one user call on the handle's whole Deref target, serializer/deserializer moved into it exactly once, result returned unchanged (serialize) or consumed only by Result::map with a fresh-sole-owner constructor (deserialize); nothing allocated before the payload's deserializer returns; path set {nothing, one fresh sole owner}; any further method of these impls (e.g. deserialize_in_place) never writes into a possibly shared value; the impl headers are bounded by exactly `T: Serialize` / `T: Deserialize<'de>`. By parametricity the serializer sees the payload's call sequence.",
+          "Linear-use shape of the four serde methods from MIR def-use: one user call on the handle's whole Deref target, serializer/deserializer moved into it exactly once, result returned unchanged (serialize) or consumed only by Result::map with a fresh-sole-owner constructor (deserialize); nothing allocated before the payload's deserializer returns; path set {nothing, one fresh sole owner}; any further method of these impls (e.g. deserialize_in_place) never writes into a possibly shared value; the impl headers are bounded by exactly `T: Serialize` / `T: Deserialize<'de>`. By parametricity the serializer sees the payload's call sequence. Decided in every serde-enabled configuration, including serde without std.",
           TB + " Result::map semantics; parametricity.", "def-use linearity and path-set rules on the serde impls", "DESIGN.md 4/C17")
 
 
@@ -59,7 +59,7 @@ def _more4(check, na):
 
 def _more5(check, na):
     check("C06", "other",
-          "Decides the structural clauses of constructor correctness (each a necessary condition) from expressions extracted out of MIR: every payload field written (ptr::write/copy, never a dropping assignment) before the first owning handle exists; one length expression sizes the allocation, counts the copy / bounds the fill loop and is recorded by ThinArc constructors; sources disarmed exactly once (Vec set_len(0) then dropped, Box re-typed to ManuallyDrop, T: Copy for borrowed slices); loop shape; slot provenance and exhaustion re-check; exact-size fast path guard; delegating constructors make one constructor call. Element-for-element equality of the delivered contents is NOT decided (a value property).",
+          "Decides the structural clauses of constructor correctness (each a necessary condition) from expressions extracted out of MIR: every payload field written (ptr::write/copy, never a dropping assignment) before the first owning handle exists; one length expression sizes the allocation, counts the copy / bounds the fill loop and is recorded by ThinArc constructors; sources disarmed exactly once (Vec set_len(0) then dropped, Box re-typed to ManuallyDrop, T: Copy for borrowed slices); loop shape; slot provenance and exhaustion re-check; exact-size fast path guard; delegating constructors make one constructor call. Element-for-element equality of the delivered contents is NOT decided (a value property). A private partial-initialisation guard (destructor destroying the elements written so far) is never dropped after the handle owns the elements and never counts a slot before it is written (R-PGUARD-OWNER/COUNT).",
           TB + " Expression extractor analysis/symx.py.", "def-use expression extraction, dominance and cut-set rules on the constructors", "DESIGN.md 4/C06")
     check("C10", "other",
           "The length invariant is carried by a type; the check shows nothing forges or disturbs it: typestate-introducing casts only in unsafe constructors whose safe call sites are dominated by `stored length == slice.len()` on the converted value; mutable access into the protected payload ends in the user header or the slice only, private field, no DerefMut; the single re-fattening helper reads the length from the same allocation and all users reach it; thin<->fat conversions keep the block pointer and the count; the refusing path of into_thin releases the Arc; with_arc_mut's guard (C07).",
